@@ -50,6 +50,7 @@ def run(ctx):
     r08_4(ctx, rep, roles)
     r08_5(ctx, rep, roles)
     r08_7(ctx, rep, W)
+    r08_8(ctx, rep, S, L, D, W)
 
 
 def items_of(out, variant, exit_kind="return"):
@@ -525,4 +526,59 @@ def r08_7(ctx, rep, W):
     for key in sorted(set(got) - set(ref)):
         rep.obligation(False, "C08/R08.7/unreferenced/%s" % key.replace("|", "/"), "a new encoder / variant %s has no reference layout" % key, None)
     rep.floor("layouts", n, 25)
+    rep.instance(n)
+
+
+# calls through which a decoded item may flow into the decoded value / a field may flow into the written bytes: each keeps the
+# value (constructor, container insertion, checked conversion) — reviewed by reading; anything else is an unreviewed transformation
+READ_OK = {
+    "deserialize": "nested decode", "from_le_bytes": "fixed-width integer decode (endianness is R08.1)", "new": "SocketAddr::new / Vec::new constructor",
+    "to_string": "str -> String copy", "from_utf8": "checked view of the same bytes", "get": "checked sub-slice", "with_context": "error decoration of an Option",
+    "try_into": "slice -> array of the same bytes", "index": "sub-slice", "push": "container insertion", "default": "empty container", "len": "observer",
+    "insert": "container insertion", "from": "From between address types / error conversion", "into": "Into between address types",
+    "context": "error decoration", "ok_or_else": "Option -> Result", "map_err": "error conversion", "try_from": "tag byte -> enum (R08.2)",
+    "to_owned": "copy", "clone": "copy", "to_vec": "copy", "from_utf8_lossy": None}
+WRITE_OK = {
+    "serialize": "nested encode", "index": "sub-slice", "extend": "byte append", "with_capacity": "buffer constructor", "next": "iteration",
+    "to_le_bytes": "fixed-width integer encode", "octets": "address bytes", "as_str": "view", "as_bytes": "view", "len": "length prefix",
+    "ip": "SocketAddr accessor", "port": "SocketAddr accessor", "iter": "iteration", "as_ref": "view", "as_slice": "view"}
+
+
+def _short(name):
+    n = name[6:] if name.startswith("havoc:") else name
+    n = n[5:] if n.startswith("fold:") else n
+    return sym.strip_all_generics(n).split("::")[-1]
+
+
+def r08_8(ctx, rep, S, L, D, W):
+    r = rep.rule("R08.8", "decoded values and written bytes flow only through reviewed value-preserving calls")
+    fx = ctx.fx
+    n = 0
+    for ty, f in sorted(D.items()):
+        reng = sym.Engine(fx, no_inline={x["id"] for x in D.values() if x["id"] != f["id"]})
+        bad = set()
+        rows = 0
+        for row in reng.table(f["id"], arg_terms={1: ("ptr", ("S", "buf"), ())}):
+            if row.exit != "return" or row.ret is None or (row.ret[0] == "agg" and row.ret[2] != "Ok"):
+                continue
+            rows += 1
+            v = T.resolve_locals(reng, row.store, row.ret)
+            for x in T.subterms(v):
+                if x[0] == "call" and READ_OK.get(_short(x[1])) is None:
+                    bad.add(x[1])
+        n += 1
+        rep.obligation(not bad and rows > 0, "C08/R08.8/read/%s" % ty, "the value decoded for %s passes through %s (not a reviewed value-preserving call; %d Ok paths)" % (ty, sorted(bad), rows),
+                       where(f), sample="%s: Ok value built from decoded items only" % ty)
+    for ty, (f, eng, out) in sorted(W.items()):
+        bad = set()
+        for k, lst in out.items():
+            for items in lst:
+                for it in items:
+                    for x in T.subterms(it[3]):
+                        if x[0] == "call" and _short(x[1]) not in WRITE_OK:
+                            bad.add(x[1])
+        n += 1
+        rep.obligation(not bad, "C08/R08.8/write/%s" % ty, "bytes written for %s are computed through %s (not a reviewed value-preserving call)" % (ty, sorted(bad)),
+                       where(f), sample="%s: written bytes derive from the fields directly" % ty)
+    rep.floor("codecs", n, 38)
     rep.instance(n)
